@@ -4,7 +4,10 @@ import (
 	"bytes"
 	"fmt"
 	"os"
+	"path/filepath"
 	"testing"
+
+	"github.com/hnakamur/whispertool/cmd"
 
 	wt "github.com/hnakamur/whispertool"
 	"pgregory.net/rapid"
@@ -48,7 +51,7 @@ func diskVsModel(l Layout, b []byte, m *Model, where string) []Finding {
 	return nil
 }
 
-func runC05(c HistCase, ev *Evid) (fs []Finding) {
+func runC05History(c HistCase, ev *Evid) (fs []Finding) {
 	h, err := newHistRunner("C05", c.L, c.Now)
 	if err != nil {
 		return []Finding{{Property: "C05", Key: "create-error", Detail: fmt.Sprintf("Create(%s): %v", c.L, err)}}
@@ -219,12 +222,226 @@ func firstDiff(a, b []byte) int {
 	return len(a)
 }
 
+// C05Case is either a library history or a failing CLI write (the property's last clause).
+type C05Case struct {
+	Kind string    `json:"kind"` // history | cli
+	H    *HistCase `json:"history,omitempty"`
+	CLI  *C05CLI   `json:"cli,omitempty"`
+}
+
+// C05CLI: a copy / sum-copy onto an existing destination that is made to fail.
+type C05CLI struct {
+	Now     int64       `json:"now"`
+	Cmd     string      `json:"cmd"` // copy | sum-copy
+	Src     []TreeFile  `json:"src"`
+	Dest    FileSpec    `json:"dest"`   // the existing destination (its layout may differ from the source's)
+	Fault   string      `json:"fault"` // layout-mismatch | corrupt-src | devfull | second-file-mismatch
+	Corrupt []byte      `json:"corrupt,omitempty"`
+	From    int64       `json:"from"`
+	Until   int64       `json:"until"`
+	CopyNaN bool        `json:"copy_nan"`
+}
+
+func runC05(c C05Case, ev *Evid) []Finding {
+	if c.Kind == "cli" {
+		return runC05CLI(*c.CLI, ev)
+	}
+	return runC05History(*c.H, ev)
+}
+
+func runC05CLI(c C05CLI, ev *Evid) (fs []Finding) {
+	add := func(key, format string, args ...interface{}) {
+		fs = append(fs, Finding{Property: "C05", Key: key, Detail: fmt.Sprintf("%s fault=%s now=%d from=%d until=%d: ", c.Cmd, c.Fault, c.Now, c.From, c.Until) + fmt.Sprintf(format, args...)})
+	}
+	dir := scratchDir()
+	defer os.RemoveAll(dir)
+	srcBase := filepath.Join(dir, "src")
+	if err := buildTree(srcBase, c.Src, c.Now); err != nil {
+		add("setup", "%v", err)
+		return
+	}
+	l := c.Src[0].Spec.L
+	first := c.Src[0]
+	if c.Fault == "corrupt-src" {
+		os.WriteFile(filepath.Join(srcBase, first.Dir, first.Name), c.Corrupt, 0644)
+	}
+	// two identical destination trees: the faulty run and a fault-free twin
+	destRel := filepath.Join(first.Dir, first.Name)
+	if c.Cmd == "sum-copy" {
+		destRel = filepath.Join(first.Dir, "sum.wsp")
+	}
+	mkDest := func(tag string) (string, error) {
+		base := filepath.Join(dir, "dest-"+tag)
+		if err := buildFile(filepath.Join(base, destRel), c.Dest, c.Now); err != nil {
+			return base, err
+		}
+		if c.Fault == "second-file-mismatch" && len(c.Src) > 1 {
+			// the first matched file has a regular destination, the second one the mismatching layout
+			second := c.Src[1]
+			if err := buildFile(filepath.Join(base, second.Dir, second.Name), c.Dest, c.Now); err != nil {
+				return base, err
+			}
+			if err := buildFile(filepath.Join(base, destRel), FileSpec{L: l}, c.Now); err != nil && !os.IsExist(err) {
+				os.Remove(filepath.Join(base, destRel))
+				if err := buildFile(filepath.Join(base, destRel), FileSpec{L: l}, c.Now); err != nil {
+					return base, err
+				}
+			}
+		}
+		return base, nil
+	}
+	run := func(destBase, textOut string) (error, string) {
+		var cc cmd.Command
+		if c.Cmd == "copy" {
+			rel := first.Dir + "/" + first.Name
+			if c.Fault == "second-file-mismatch" {
+				rel = first.Dir + "/*.wsp"
+			}
+			cc = &cmd.CopyCommand{SrcBase: srcBase, SrcRelPath: rel, DestBase: destBase, AggregationMethod: wt.AggregationMethod(l.Method), XFilesFactor: l.XFF, ArchiveInfoList: wtArchives(l),
+				From: wt.Timestamp(c.From), Until: wt.Timestamp(c.Until), ArchiveID: -1, CopyNaN: c.CopyNaN, TextOut: textOut}
+		} else {
+			cc = &cmd.SumCopyCommand{SrcBase: srcBase, DestBase: destBase, ItemPattern: first.Dir, SrcPattern: "*.wsp", DestRelPath: "sum.wsp", AggregationMethod: wt.AggregationMethod(l.Method), XFilesFactor: l.XFF, ArchiveInfoList: wtArchives(l),
+				From: wt.Timestamp(c.From), Until: wt.Timestamp(c.Until), ArchiveID: -1, TextOut: textOut}
+		}
+		return runCommand(c.Now, cc)
+	}
+	faultBase, err := mkDest("fault")
+	if err != nil {
+		add("setup", "%v", err)
+		return
+	}
+	twinBase, err := mkDest("twin")
+	if err != nil {
+		add("setup", "%v", err)
+		return
+	}
+	before := snapshotTree(faultBase)
+	textOut := filepath.Join(dir, "out.txt")
+	if c.Fault == "devfull" {
+		textOut = "/dev/full"
+	}
+	ferr, pm := run(faultBase, textOut)
+	if pm != "" {
+		add("panic", "%s", pm)
+		return
+	}
+	after := snapshotTree(faultBase)
+	if ferr == nil {
+		// nothing failed (e.g. nothing to print on /dev/full): not a case of this clause
+		ev.Count(HashJSON(c), false, "cli", "cli-did-not-fail", "fault="+c.Fault)
+		return nil
+	}
+	// what a successful run would have produced (fault-free twin)
+	_, _ = run(twinBase, filepath.Join(dir, "twin.txt"))
+	twin := snapshotTree(twinBase)
+	twinOut := 0
+	if st, err := os.Stat(filepath.Join(dir, "twin.txt")); err == nil {
+		twinOut = int(st.Size())
+	}
+	changed := 0
+	for rel, b := range before {
+		a := after[rel]
+		if a == b {
+			continue
+		}
+		changed++
+		// a destination may only differ if the command completed its work for that file (final Sync done):
+		// then it must equal what the fault-free run produces
+		// the text writer buffers: a small output fails only when it is flushed after the final Sync (the
+		// destination then equals the completed copy); an output far larger than any buffer fails while it
+		// is printed, i.e. before the final Sync, and the destination must be untouched
+		if a == twin[rel] && !(c.Fault == "devfull" && twinOut >= 256<<10) {
+			continue
+		}
+		add("dest-modified-by-failed-write", "the command failed (%v) but destination %s changed (first difference at byte %d) and is not the result of a completed copy", ferr, rel, firstDiff([]byte(a), []byte(b)))
+		return
+	}
+	for rel := range after {
+		if _, ok := before[rel]; !ok && after[rel] != twin[rel] {
+			add("dest-created-by-failed-write", "the command failed (%v) but created %s", ferr, rel)
+			return
+		}
+	}
+	cls := []string{"cli", "fault=" + c.Fault, "cmd=" + c.Cmd}
+	if c.Fault == "devfull" && twinOut >= 256<<10 {
+		cls = append(cls, "devfull-output>=256KiB")
+	}
+	if changed > 0 {
+		cls = append(cls, "failed-after-final-sync")
+	}
+	ev.Count(HashJSON(c), true, cls...)
+	if ev.WantSample() && len(c.Src) == 1 && len(c.Src[0].Spec.Writes) < 8 {
+		ev.Sample(c)
+	}
+	return nil
+}
+
+func genC05CLI(t *rapid.T) C05CLI {
+	l := genCLILayout(t)
+	now := genNowRealistic(t, l)
+	c := C05CLI{Now: now, Cmd: rapid.SampledFrom([]string{"copy", "copy", "sum-copy"}).Draw(t, "cmd")}
+	n := rapid.IntRange(1, 3).Draw(t, "files")
+	for i := 0; i < n; i++ {
+		c.Src = append(c.Src, TreeFile{Dir: "s1", Name: fmt.Sprintf("f%d.wsp", i+1), Spec: FileSpec{L: l, Writes: genWrites(t, l, now, valDyadic, 10)}})
+	}
+	c.Fault = rapid.SampledFrom([]string{"layout-mismatch", "corrupt-src", "devfull", "devfull", "second-file-mismatch"}).Draw(t, "fault")
+	if c.Fault == "second-file-mismatch" && (c.Cmd != "copy" || n < 2) {
+		c.Fault = "layout-mismatch"
+	}
+	c.Dest = FileSpec{L: l, Writes: genWrites(t, l, now, valDyadic, 10)}
+	if c.Fault == "layout-mismatch" || c.Fault == "second-file-mismatch" {
+		l2 := genCLILayout(t)
+		for layoutsEqualArchives(l, l2) {
+			l2.Archives[0].Points++
+			if len(l2.Archives) > 1 {
+				l2 = Layout{Archives: l2.Archives[:1], Method: l2.Method, XFF: l2.XFF}
+			}
+		}
+		c.Dest = FileSpec{L: l2, Writes: genWrites(t, l2, now, valDyadic, 10)}
+	}
+	if c.Fault == "corrupt-src" {
+		c.Corrupt = rapid.SliceOfN(rapid.Byte(), 0, 60).Draw(t, "garbage")
+	}
+	if c.Fault == "devfull" && rapid.IntRange(0, 2).Draw(t, "hugeOutput") == 0 {
+		// an archive of thousands of differing slots: hundreds of KiB of text output
+		big := Layout{Archives: []Arch{{Step: l.Archives[0].Step, Points: rapid.Int64Range(7000, 9000).Draw(t, "hugePoints")}}, Method: l.Method, XFF: l.XFF}
+		if rapid.Bool().Draw(t, "hugeTwoLevel") {
+			big.Archives = append(big.Archives, Arch{Step: big.Archives[0].Step * 10, Points: big.Archives[0].Points/10 + 5})
+		}
+		for i := range c.Src {
+			c.Src[i].Spec = FileSpec{L: big, Fill: big.Archives[0].Points, FillBase: F64(float64(i) + 0.5)}
+		}
+		c.Dest = FileSpec{L: big, Fill: big.Archives[0].Points / 2, FillBase: 1000000.25}
+		c.From, c.Until = 0, 0
+		c.CopyNaN = rapid.Bool().Draw(t, "copyNaN")
+		c.Now = genNowRealistic(t, big)
+		return c
+	}
+	if c.Fault == "devfull" && rapid.Bool().Draw(t, "bigOutput") {
+		// many points so that the text output exceeds the writer's buffer and fails before the final Sync
+		for i := range c.Src {
+			for age := int64(0); age < minI64(l.Archives[0].Ret(), 200); age++ {
+				c.Src[i].Spec.Writes = append(c.Src[i].Spec.Writes, SlotWrite{Arch: 0, T: now - age, V: F64(float64(age) + 0.125)})
+			}
+		}
+	}
+	if rapid.Bool().Draw(t, "window") {
+		c.From, c.Until = genCLIWindow(t, l, now)
+	}
+	c.CopyNaN = rapid.Bool().Draw(t, "copyNaN")
+	return c
+}
+
 func TestC05(t *testing.T) {
-	RunProperty(t, Property[HistCase]{
+	RunProperty(t, Property[C05Case]{
 		ID: "C05",
-		Rule: "rapid-generated histories (<=40 ops: writes, clock advances, Sync, Sync+reopen, abandon = drop the handle without Sync) on layouts weighted towards multi-page files (archives of 340-3000 slots so that 12-byte slots straddle 4 KiB pages); after EVERY op the file is re-read with os.ReadFile: length fixed, bytes unchanged unless the op was a Sync, and the bytes decoded by the independent parser equal the model state as of the last Sync (every op boundary is a crash point); after each Sync the disk, a second read-only handle and the live handle agree with the model on every archive's full window and 2 generated windows, and the header bytes equal the specification encoding and never change. Non-trivial: >=2 Syncs that flushed writes and >=1 abandonment with unsynced writes pending. Distinct = hash of the case.",
+		Rule: "rapid-generated histories (<=40 ops: writes, clock advances, Sync, Sync+reopen, abandon = drop the handle without Sync) on layouts weighted towards multi-page files (archives of 340-3000 slots so that 12-byte slots straddle 4 KiB pages); after EVERY op the file is re-read with os.ReadFile: length fixed, bytes unchanged unless the op was a Sync, and the bytes decoded by the independent parser equal the model state as of the last Sync (every op boundary is a crash point); after each Sync the disk, a second read-only handle and the live handle agree with the model on every archive's full window and 2 generated windows, and the header bytes equal the specification encoding and never change. One case in six is a CLI write (copy / sum-copy at a controlled clock) onto an existing destination that is made to fail - mismatching destination layout, corrupt source, text output on /dev/full, or a glob whose second file mismatches: a destination may differ from its previous bytes only if it equals what a fault-free twin run produces (the command had finished that file's final Sync). Non-trivial: history cases with >=2 Syncs that flushed writes and >=1 abandonment with unsynced writes pending; CLI cases in which the command failed. Distinct = hash of the case.",
 		Assumptions: []string{"the kernel page cache stands in for the disk; a crash during Sync is outside the property", "zone Z7 clocks"},
-		Gen: func(t *rapid.T) HistCase {
+		Gen: func(t *rapid.T) C05Case {
+			if rapid.IntRange(0, 5).Draw(t, "cli") == 0 {
+				c := genC05CLI(t)
+				return C05Case{Kind: "cli", CLI: &c}
+			}
 			o := defaultLayoutOpts()
 			l := genLayout(t, o)
 			if rapid.IntRange(0, 2).Draw(t, "forceBig") > 0 {
@@ -242,7 +459,8 @@ func TestC05(t *testing.T) {
 					}
 				}
 			}
-			return genHistory(t, l, histGenOpts{MaxOps: 40, FuturePct: 2, StaleNamed: true, Windows: 2, Reopen: true, Abandon: true, SyncHeavy: true})
+			h := genHistory(t, l, histGenOpts{MaxOps: 40, FuturePct: 2, StaleNamed: true, Windows: 2, Reopen: true, Abandon: true, SyncHeavy: true})
+			return C05Case{Kind: "history", H: &h}
 		},
 		Run: runC05,
 	})
